@@ -1,0 +1,75 @@
+/**
+ * @file verif_hook.h
+ * @brief instrumentation points for external verification harnesses.
+ * @details Everything in this file and every use of YK_VERIF_* expands to nothing unless
+ * YAKUSHIMA_VERIF is defined. With the guard on, each shared-memory access of the library
+ * announces itself through one function pointer (null by default) *before* it is performed, so
+ * that a harness can serialize threads at these points and record the accesses.
+ */
+#pragma once
+
+#ifdef YAKUSHIMA_VERIF
+
+#include <cstdint>
+
+namespace yakushima::verif {
+
+// kinds of announced accesses
+constexpr int k_load = 0;
+constexpr int k_store = 1;
+constexpr int k_cas = 2;   // about to attempt a compare-exchange
+constexpr int k_rmw = 3;   // fetch_add / fetch_sub
+constexpr int k_spin = 4;  // busy-wait iteration (pause)
+constexpr int k_sleep = 5; // about to sleep
+constexpr int k_note = 6;  // semantic event, no memory access (value carries the payload)
+constexpr int k_cas_ok = 7;   // result of the preceding compare-exchange
+constexpr int k_cas_fail = 8; // result of the preceding compare-exchange
+
+// which member is accessed
+constexpr int f_generic = 0;
+constexpr int f_version = 1;
+constexpr int f_perm = 2;
+constexpr int f_nkeys = 3;
+constexpr int f_root = 4;
+constexpr int f_rootlock = 5;
+constexpr int f_running = 6;
+constexpr int f_begin_epoch = 7;
+constexpr int f_epoch = 8;
+constexpr int f_gc_epoch = 9;
+constexpr int f_lv = 10;
+constexpr int f_bulk = 11; // memmove over key/child arrays
+constexpr int f_retire_node = 12;
+constexpr int f_retire_value = 13;
+constexpr int f_reclaim_node = 14;
+constexpr int f_reclaim_value = 15;
+constexpr int f_enter = 16;
+constexpr int f_leave = 17;
+constexpr int f_epoch_thread = 18;
+constexpr int f_gc_thread = 19;
+constexpr int f_child = 20;
+constexpr int f_thread_end_flag = 21;
+
+using hook_fn = void (*)(int kind, const void* obj, int field, std::uint64_t value);
+
+inline hook_fn& hook_slot() {
+    static hook_fn slot = nullptr;
+    return slot;
+}
+
+inline void announce(int kind, const void* obj, int field, std::uint64_t value) {
+    hook_fn h = hook_slot();
+    if (h != nullptr) { h(kind, obj, field, value); }
+}
+
+} // namespace yakushima::verif
+
+#define YK_VERIF(kind, obj, field, value)                                      \
+    ::yakushima::verif::announce(::yakushima::verif::kind, (obj),              \
+                                 ::yakushima::verif::field,                    \
+                                 static_cast<std::uint64_t>(value))
+
+#else
+
+#define YK_VERIF(kind, obj, field, value) ((void) 0)
+
+#endif
